@@ -1,12 +1,376 @@
-import J5V.Print.TextString
-import J5V.Print.RefName
-import J5V.Print.OptionText
-import J5V.Print.Order
-/-! # C05 — placeholder, being written -/
+import J5V.Print.TextStringProofs
+import J5V.Print.RefNameProofs
+import J5V.Print.OrderProofs
+import J5V.Print.OptionTextProofs
+/-!
+# C05 — generated .proto text re-parses to the descriptor it was printed from
+
+Only the property theorems (and their non-vacuity examples) live here. They are about the four
+kernels of `/repo/internal/j5s/protoprint` modelled in `J5V.Print.*` and about reader-side
+specifications written from the protobuf language definition (string literals, relative-name
+resolution, message-literal tokens). The grammar-level parser of bufbuild/protocompile is third
+party and is **not** re-implemented: the whole-file statement `C05_reparse_partial` relates it to
+the kernels by an explicit hypothesis. The whole-file equivalence on real files is decided by the
+`print.reparse` oracle on the real code (see `checks/C05.py`), not by a theorem.
+-/
 namespace J5V.Props.C05
 open J5V.Print
 
-theorem C05_order_irrefl (a : Order.Elem) : Order.less a a = false := by
-  unfold Order.less; simp
+/-! ## 1. string literals -/
+
+/-- Every byte string, written by `prototextString`, is read back unchanged by the string-literal
+reader — for all byte strings, including ill-formed UTF-8, control characters, quotes, NUL. -/
+theorem C05_string_inv (s : List Nat) (hb : TextString.IsBytes s) :
+    TextString.unescape (TextString.textString s) = some s := by
+  unfold TextString.unescape TextString.textString
+  exact TextString.unesc_escBody s.length s rfl hb
+
+/-- The encoder is injective: two different values never print the same literal. -/
+theorem C05_string_injective (s₁ s₂ : List Nat) (h₁ : TextString.IsBytes s₁) (h₂ : TextString.IsBytes s₂)
+    (h : TextString.textString s₁ = TextString.textString s₂) : s₁ = s₂ := by
+  have e₁ := C05_string_inv s₁ h₁
+  have e₂ := C05_string_inv s₂ h₂
+  rw [h, e₂] at e₁
+  exact (Option.some.inj e₁).symm
+
+example : TextString.IsBytes [0, 34, 92, 10, 0xC3, 0xA9, 0xFF, 0xED, 0xA0, 0x80, 0xF0, 0x9F, 0x98, 0x80] := by decide
+/-! ## 2. relative type names -/
+
+/-- The full-strength statement: whenever the target is declared, the printed name resolves to
+it. It is **false** of the code (recorded finding `refname-shadowed`). -/
+def C05_refname_resolves_full : Prop :=
+  ∀ (t : RefName.Tab) (only : Bool) (ctxPkg ctx tgtPkg tgt : RefName.Path),
+    RefName.SymtabWF t only tgtPkg tgt →
+    RefName.resolve t ctxPkg ctx only (RefName.refName ctxPkg ctx tgtPkg tgt) = some (tgtPkg ++ tgt)
+
+/-- witness: `package gen.v1; message Gen { message Gen {}  .gen.v1.Gen n1 = 1; }` -/
+def shadowTab : RefName.Tab :=
+  ⟨[⟨["gen", "v1", "Gen"], .msg⟩, ⟨["gen", "v1", "Gen", "Gen"], .msg⟩], [["gen", "v1"]]⟩
+
+theorem C05_refname_counterexample : ¬ C05_refname_resolves_full := by
+  intro h
+  have hw : RefName.SymtabWF shadowTab true ["gen", "v1"] ["Gen"] := by
+    refine ⟨by simp, ⟨.msg, by decide, by decide⟩, ?_, ?_⟩
+    · intro j h1 h2; simp at h2; omega
+    · intro i h1 h2
+      have : i = 1 ∨ i = 2 := by simp at h2; omega
+      rcases this with rfl | rfl <;> decide
+  have := h shadowTab true ["gen", "v1"] ["Gen"] ["gen", "v1"] ["Gen"] hw
+  revert this
+  decide
+
+/-- what the printed name of the witness resolves to: the nested message -/
+example : RefName.resolve shadowTab ["gen", "v1"] ["Gen"] true
+    (RefName.refName ["gen", "v1"] ["Gen"] ["gen", "v1"] ["Gen"]) = some ["gen", "v1", "Gen", "Gen"] := by decide
+
+/-- Under `NoShadow` (no scope searched before the intended one declares the first component of
+the printed name — the decidable predicate that excludes exactly the recorded class) the printed
+name resolves to the target. Covers same-package references (shortened) and cross-package ones
+(package-qualified, no leading dot), field context (`only = true`) and method context. -/
+theorem C05_refname_resolves_partial (t : RefName.Tab) (only : Bool) (ctxPkg ctx tgtPkg tgt : RefName.Path)
+    (hwf : RefName.SymtabWF t only tgtPkg tgt)
+    (hns : RefName.NoShadow t only ctxPkg ctx tgtPkg tgt = true) :
+    RefName.resolve t ctxPkg ctx only (RefName.refName ctxPkg ctx tgtPkg tgt) = some (tgtPkg ++ tgt) := by
+  obtain ⟨hne, ⟨k, hk, hkt⟩, hanc, hpk⟩ := hwf
+  obtain ⟨hA, hnn⟩ := RefName.home_append_refName ctxPkg ctx tgtPkg tgt hne
+  unfold RefName.NoShadow at hns
+  cases hname : RefName.refName ctxPkg ctx tgtPkg tgt with
+  | nil => exact absurd hname hnn
+  | cons first rest =>
+    rw [hname] at hns hA
+    simp only [List.all_eq_true, Bool.not_eq_true'] at hns
+    obtain ⟨outer, hsplit⟩ := RefName.split_at_mem (RefName.home ctxPkg ctx tgtPkg tgt) _
+      (RefName.home_mem_scopes ctxPkg ctx tgtPkg tgt)
+    unfold RefName.resolve
+    simp only []
+    rw [hsplit]
+    obtain ⟨best', hskip⟩ := RefName.resolveIn_skip t only first rest _
+      (RefName.home ctxPkg ctx tgtPkg tgt :: outer) none hns
+    rw [hskip]
+    -- at the home scope
+    have hfull : RefName.home ctxPkg ctx tgtPkg tgt ++ first :: rest = tgtPkg ++ tgt := hA
+    simp only [RefName.resolveIn, RefName.resolveRel]
+    by_cases hr : rest = []
+    · subst hr
+      have : RefName.home ctxPkg ctx tgtPkg tgt ++ [first] = tgtPkg ++ tgt := hfull
+      rw [this, hk]
+      simp only [if_true]
+      cases only with
+      | true =>
+        simp only [if_true] at hkt
+        simp [hkt]
+      | false =>
+        simp only [Bool.false_eq_true, if_false] at hkt
+        simp [hkt]
+    · -- the first component is a proper prefix of the target: a package prefix or an enclosing message
+      have hlen : (RefName.home ctxPkg ctx tgtPkg tgt).length + 1 < (tgtPkg ++ tgt).length := by
+        rw [← hfull]
+        have : 0 < rest.length := List.length_pos_iff.mpr hr
+        simp; omega
+      have hpre : RefName.home ctxPkg ctx tgtPkg tgt ++ [first] =
+          (tgtPkg ++ tgt).take ((RefName.home ctxPkg ctx tgtPkg tgt).length + 1) := by
+        rw [← hfull]
+        have e : RefName.home ctxPkg ctx tgtPkg tgt ++ first :: rest =
+            (RefName.home ctxPkg ctx tgtPkg tgt ++ [first]) ++ rest := by simp
+        rw [e, List.take_left' (by simp)]
+      have hagg : ∃ k', t.find (RefName.home ctxPkg ctx tgtPkg tgt ++ [first]) = some k' ∧ k'.isAggregate = true := by
+        rw [hpre]
+        have hmpos : 0 < (RefName.home ctxPkg ctx tgtPkg tgt).length + 1 := by omega
+        generalize (RefName.home ctxPkg ctx tgtPkg tgt).length + 1 = m at hlen hmpos
+        by_cases hmp : m ≤ tgtPkg.length
+        · refine ⟨.ns, ?_, rfl⟩
+          rw [List.take_append_of_le_length hmp]
+          exact hpk m hmpos hmp
+        · refine ⟨.msg, ?_, rfl⟩
+          have hj : (tgtPkg ++ tgt).take m = tgtPkg ++ tgt.take (m - tgtPkg.length) := by
+            rw [List.take_append]
+            have : tgtPkg.take m = tgtPkg := List.take_of_length_le (by omega)
+            rw [this]
+          rw [hj]
+          apply hanc
+          · omega
+          · simp at hlen; omega
+      obtain ⟨k', hk', hagg'⟩ := hagg
+      rw [hk', hfull, hk]
+      simp only [hr, if_false, hagg', Bool.not_true, Bool.false_eq_true]
+      have hcond : (!only || k.isType || decide (rest ≠ [])) = true := by simp [hr]
+      simp only [hcond, if_true]
+      cases only with
+      | true => simpa using hkt
+      | false => simpa using hkt
+
+/-! non-vacuity: a three-level file where the hypotheses hold and the name is really shortened -/
+
+def okTab : RefName.Tab :=
+  ⟨[⟨["p", "A"], .msg⟩, ⟨["p", "A", "B"], .msg⟩, ⟨["p", "A", "B", "C"], .enum⟩, ⟨["p", "A", "D"], .msg⟩,
+    ⟨["q", "r", "X"], .msg⟩], [["p"], ["q", "r"]]⟩
+
+example : RefName.NoShadow okTab true ["p"] ["A", "D"] ["p"] ["A", "B", "C"] = true := by decide
+example : RefName.refName ["p"] ["A", "D"] ["p"] ["A", "B", "C"] = ["B", "C"] := by decide
+example : RefName.SymtabWF okTab true ["p"] ["A", "B", "C"] := by
+  refine ⟨by simp, ⟨.enum, by decide, by decide⟩, ?_, ?_⟩
+  · intro j h1 h2
+    have : j = 1 ∨ j = 2 := by simp at h2; omega
+    rcases this with rfl | rfl <;> decide
+  · intro i h1 h2
+    have : i = 1 := by simp at h2; omega
+    subst this; decide
+/-- cross-package reference, printed package-qualified -/
+example : RefName.NoShadow okTab true ["p"] ["A", "D"] ["q", "r"] ["X"] = true ∧
+    RefName.refName ["p"] ["A", "D"] ["q", "r"] ["X"] = ["q", "r", "X"] := by decide
+/-- self reference and reference to an ancestor keep the type's own name (fix b1156d6) -/
+example : RefName.refName ["p"] ["A", "B"] ["p"] ["A", "B"] = ["B"] ∧
+    RefName.refName ["p"] ["A", "B"] ["p"] ["A"] = ["A"] := by decide
+
+/-- The printed name is never empty (the defect fixed by b1156d6 cannot come back unnoticed). -/
+theorem C05_refname_nonempty (ctxPkg ctx tgtPkg tgt : RefName.Path) (h : tgt ≠ []) :
+    RefName.refName ctxPkg ctx tgtPkg tgt ≠ [] :=
+  (RefName.home_append_refName ctxPkg ctx tgtPkg tgt h).2
+
+/-! ## 3. printing order -/
+
+/-- `sourceElements.Less` is irreflexive and asymmetric for all elements … -/
+theorem C05_order_irrefl (a : Order.Elem) : Order.less a a = false := Order.less_irrefl a
+
+theorem C05_order_asymm (a b : Order.Elem) (h : Order.less a b = true) : Order.less b a = false :=
+  Order.less_asymm a b h
+
+/-- … but it is **not** transitive when elements with and without a source line are mixed
+(`sort.Sort` then has no specified result). -/
+theorem C05_order_not_transitive :
+    ∃ a b c : Order.Elem, Order.less a b = true ∧ Order.less b c = true ∧ Order.less a c = false :=
+  ⟨⟨0, 5, 0⟩, ⟨1, 0, 0⟩, ⟨2, 3, 0⟩, by decide⟩
+
+/-- When all elements have a source line, or none has, `Less` is a strict weak order. -/
+theorem C05_order_strict_weak_partial (a b c : Order.Elem)
+    (hu : (a.startLine ≠ 0 ∧ b.startLine ≠ 0 ∧ c.startLine ≠ 0) ∨
+          (a.startLine = 0 ∧ b.startLine = 0 ∧ c.startLine = 0)) :
+    (Order.less a b = true → Order.less b c = true → Order.less a c = true) ∧
+    ((Order.less a b = false ∧ Order.less b a = false) → (Order.less b c = false ∧ Order.less c b = false) →
+      (Order.less a c = false ∧ Order.less c a = false)) :=
+  ⟨Order.less_trans a b c hu, Order.incomp_trans a b c hu⟩
+
+theorem uniform_cases (es : List Order.Elem) (hu : Order.uniformLines es = true) (a b c : Order.Elem)
+    (ha : a ∈ es) (hb : b ∈ es) (hc : c ∈ es) :
+    (a.startLine ≠ 0 ∧ b.startLine ≠ 0 ∧ c.startLine ≠ 0) ∨
+    (a.startLine = 0 ∧ b.startLine = 0 ∧ c.startLine = 0) := by
+  unfold Order.uniformLines at hu
+  simp only [Bool.or_eq_true, List.all_eq_true, decide_eq_true_eq] at hu
+  rcases hu with h | h
+  · exact Or.inl ⟨h a ha, h b hb, h c hc⟩
+  · exact Or.inr ⟨h a ha, h b hb, h c hc⟩
+
+/-- The printing order is a function of the descriptor: when the lines are uniform and no two
+elements tie, there is exactly one order in which any correct sorting algorithm can leave the
+elements (so `sort.Sort`, unstable as it is, has no freedom), and the reference sort finds it. -/
+theorem C05_order_total (es out₁ out₂ : List Order.Elem)
+    (h₁ : out₁.Perm es) (h₂ : out₂.Perm es)
+    (s₁ : out₁.Pairwise (fun a b => Order.less a b = true))
+    (s₂ : out₂.Pairwise (fun a b => Order.less a b = true)) : out₁ = out₂ := by
+  apply List.Perm.eq_of_pairwise (le := fun a b => Order.less a b = true) _ s₁ s₂ (h₁.trans h₂.symm)
+  intro a b _ _ hab hba
+  have := Order.less_asymm a b hab
+  rw [this] at hba
+  exact absurd hba (by simp)
+
+theorem C05_order_sorted_exists (es : List Order.Elem)
+    (hu : Order.uniformLines es = true) (hn : Order.noTies Order.less es = true) :
+    (Order.isort Order.less es).Perm es ∧
+    (Order.isort Order.less es).Pairwise (fun a b => Order.less a b = true) := by
+  refine ⟨Order.isort_perm _ es, Order.isort_sorted _ es (Order.noTies_total _ es hn) ?_⟩
+  intro a b c ha hb hc
+  exact Order.less_trans a b c (uniform_cases es hu a b c ha hb hc)
+
+example : Order.uniformLines [⟨1, 4, 0⟩, ⟨0, 9, 0⟩, ⟨2, 2, 1⟩] = true ∧
+    Order.noTies Order.less [⟨1, 4, 0⟩, ⟨0, 9, 0⟩, ⟨2, 2, 1⟩] = true := by decide
+example : Order.isort Order.less [⟨1, 0, 0⟩, ⟨0, 0, 0⟩, ⟨2, 0, 1⟩, ⟨1, 0, 1⟩] =
+    [⟨0, 0, 0⟩, ⟨1, 0, 0⟩, ⟨1, 0, 1⟩, ⟨2, 0, 1⟩] := by decide
+
+/-- Options of a field are sorted by qualified name: bytewise `<` is a strict total order, so the
+sorted order of pairwise different names is unique (and `slices.SortFunc` has no freedom). -/
+theorem C05_option_sort_unique (ns out₁ out₂ : List (List Nat))
+    (h₁ : out₁.Perm ns) (h₂ : out₂.Perm ns)
+    (s₁ : out₁.Pairwise (fun a b => Order.nameLess a b = true))
+    (s₂ : out₂.Pairwise (fun a b => Order.nameLess a b = true)) : out₁ = out₂ := by
+  apply List.Perm.eq_of_pairwise (le := fun a b => Order.nameLess a b = true) _ s₁ s₂ (h₁.trans h₂.symm)
+  intro a b _ _ hab hba
+  have := Order.nameLess_asymm a b hab
+  rw [this] at hba
+  exact absurd hba (by simp)
+
+theorem C05_option_sort_exists (ns : List (List Nat)) (hd : ns.Nodup) :
+    (Order.isort Order.nameLess ns).Perm ns ∧
+    (Order.isort Order.nameLess ns).Pairwise (fun a b => Order.nameLess a b = true) := by
+  refine ⟨Order.isort_perm _ ns, Order.isort_sorted _ ns ?_ ?_⟩
+  · exact hd.imp (fun hne => Order.nameLess_total _ _ hne)
+  · intro a b c _ _ _; exact Order.nameLess_trans a b c
+
+/-! ## 4. option values -/
+
+/-- Hoisting single-field messages into the option name (`(ext).a.b = v`) loses nothing:
+re-nesting the hoisted path yields the original value tree. -/
+theorem C05_simplify_inv (maxDepth fuel : Nat) (root : OptionText.Opt) :
+    OptionText.expand root.key (OptionText.simplify maxDepth fuel [] root).1
+      (OptionText.simplify maxDepth fuel [] root).2 = root := by
+  obtain ⟨ext, h1, h2⟩ := OptionText.simplify_expand maxDepth fuel [] root
+  simp only [List.nil_append] at h1
+  rw [h1]; exact h2
+
+example : OptionText.simplify 5 9 [] (.msg "field" [.msg "string" [.scalar "min_len" "1"]]) =
+    (["string", "min_len"], .scalar "min_len" "1") := by
+  simp [OptionText.simplify]
+
+/-! ## 5. the whole file, as far as the kernels carry it -/
+
+/-- one occurrence of a type reference (field type, map value type, method request / response) -/
+structure RefOcc where
+  only : Bool
+  ctxPkg : RefName.Path
+  ctx : RefName.Path
+  tgtPkg : RefName.Path
+  tgt : RefName.Path
+
+/-- The content of a file that travels through the kernels: the symbols in view, every type
+reference, every string / bytes scalar (option values, file-level string options, json_name). -/
+structure KFile where
+  tab : RefName.Tab
+  refs : List RefOcc
+  strings : List (List Nat)
+
+/-- what the printed text holds for them -/
+structure KText where
+  names : List (RefOcc × RefName.Path)   -- the scope an occurrence sits in, and the name written there
+  lits : List (List Nat)
+
+def printK (f : KFile) : KText :=
+  ⟨f.refs.map (fun r => (r, RefName.refName r.ctxPkg r.ctx r.tgtPkg r.tgt)),
+   f.strings.map TextString.textString⟩
+
+def allSome {α} : List (Option α) → Option (List α)
+  | [] => some []
+  | none :: _ => none
+  | some a :: rest => (allSome rest).map (a :: ·)
+
+/-- The reader side. `read` stands for bufbuild/protocompile (parser + linker), which is third
+party and not re-implemented; `spec` is the **assumption** made about it: it finds the same
+occurrences in the text and reads each type name by protobuf name resolution in the scope it is
+written in, and each string literal by the literal rules. (Both rules are the Lean functions
+validated differentially against protocompile by the `print.ref` / `print.str` streams.) -/
+structure Reader where
+  read : RefName.Tab → KText → Option (List RefName.Path × List (List Nat))
+  spec : ∀ tab txt, read tab txt =
+    (match allSome (txt.names.map (fun (c, n) => RefName.resolve tab c.ctxPkg c.ctx c.only n)),
+           allSome (txt.lits.map TextString.unescape) with
+     | some a, some b => some (a, b)
+     | _, _ => none)
+
+theorem allSome_map {α β} (f : α → Option β) (g : α → β) :
+    ∀ (l : List α), (∀ a ∈ l, f a = some (g a)) → allSome (l.map f) = some (l.map g)
+  | [], _ => rfl
+  | a :: l, h => by
+    simp only [List.map_cons]
+    rw [h a (by simp)]
+    simp only [allSome]
+    rw [allSome_map f g l (fun b hb => h b (by simp [hb]))]
+    rfl
+
+/-- **Whole-file statement, partial.** For every reader that treats kernel outputs as assumed
+above: reading the printed file gives back every referenced type and every string value, provided
+each reference is well-formed and not shadowed. Partial because (i) the reader's grammar level is
+an assumption, (ii) `NoShadow` excludes the recorded finding `refname-shadowed`, (iii) comments,
+layout, element order, numeric scalars and option structure are outside this statement (order and
+option trees have their own theorems above; the rest is covered by the `print.reparse` oracle). -/
+theorem C05_reparse_partial (R : Reader) (f : KFile)
+    (hrefs : ∀ r ∈ f.refs, RefName.SymtabWF f.tab r.only r.tgtPkg r.tgt ∧
+      RefName.NoShadow f.tab r.only r.ctxPkg r.ctx r.tgtPkg r.tgt = true)
+    (hstr : ∀ s ∈ f.strings, TextString.IsBytes s) :
+    R.read f.tab (printK f) = some (f.refs.map (fun r => r.tgtPkg ++ r.tgt), f.strings) := by
+  rw [R.spec]
+  unfold printK
+  simp only [List.map_map]
+  have h1 : allSome (f.refs.map ((fun (x : RefOcc × RefName.Path) =>
+      RefName.resolve f.tab x.1.ctxPkg x.1.ctx x.1.only x.2) ∘
+      fun r => (r, RefName.refName r.ctxPkg r.ctx r.tgtPkg r.tgt))) =
+      some (f.refs.map (fun r => r.tgtPkg ++ r.tgt)) := by
+    apply allSome_map
+    intro r hr
+    exact C05_refname_resolves_partial f.tab r.only r.ctxPkg r.ctx r.tgtPkg r.tgt (hrefs r hr).1 (hrefs r hr).2
+  have h2 : allSome (f.strings.map (TextString.unescape ∘ TextString.textString)) = some (f.strings.map id) := by
+    apply allSome_map
+    intro s hs
+    exact C05_string_inv s (hstr s hs)
+  rw [h1, h2]
+  simp
+
+/-- Printing what was read reproduces the same names and literals (the kernel part of "printing
+that result again reproduces the same text"). -/
+theorem C05_reprint_fixed (R : Reader) (f : KFile)
+    (hrefs : ∀ r ∈ f.refs, RefName.SymtabWF f.tab r.only r.tgtPkg r.tgt ∧
+      RefName.NoShadow f.tab r.only r.ctxPkg r.ctx r.tgtPkg r.tgt = true)
+    (hstr : ∀ s ∈ f.strings, TextString.IsBytes s)
+    (tgts : List RefName.Path) (strs : List (List Nat))
+    (hread : R.read f.tab (printK f) = some (tgts, strs)) :
+    -- the re-read file has the same references (same scopes, the targets that were read) and strings
+    tgts = f.refs.map (fun r => r.tgtPkg ++ r.tgt) ∧ strs = f.strings ∧
+    (printK ⟨f.tab, f.refs, strs⟩).lits = (printK f).lits := by
+  rw [C05_reparse_partial R f hrefs hstr] at hread
+  simp only [Option.some.injEq, Prod.mk.injEq] at hread
+  obtain ⟨h1, h2⟩ := hread
+  subst h1 h2
+  exact ⟨rfl, rfl, rfl⟩
+
+/-- the hypotheses are satisfiable: a file with one in-package, one cross-package reference and
+hard strings, and the reader defined by the specification itself -/
+def specReader : Reader :=
+  ⟨fun tab txt => match allSome (txt.names.map (fun (c, n) => RefName.resolve tab c.ctxPkg c.ctx c.only n)),
+      allSome (txt.lits.map TextString.unescape) with
+    | some a, some b => some (a, b)
+    | _, _ => none, fun _ _ => rfl⟩
+
+example : ∃ f : KFile, f.refs.length = 2 ∧ f.strings = [[0, 34, 0xFF], [0xC3, 0xA9]] ∧
+    (∀ r ∈ f.refs, RefName.NoShadow f.tab r.only r.ctxPkg r.ctx r.tgtPkg r.tgt = true) ∧
+    (∀ s ∈ f.strings, TextString.IsBytes s) :=
+  ⟨⟨okTab, [⟨true, ["p"], ["A", "D"], ["p"], ["A", "B", "C"]⟩, ⟨true, ["p"], ["A", "D"], ["q", "r"], ["X"]⟩],
+    [[0, 34, 0xFF], [0xC3, 0xA9]]⟩, rfl, rfl, by decide, by decide⟩
 
 end J5V.Props.C05
